@@ -86,6 +86,7 @@ def reject_specs(r):
         ("break", "jump_stmt", [Tok("BREAK", "break")]),
         ("continue", "jump_stmt", [Tok("CONTINUE", "continue")]),
         ("goto", "jump_stmt", [Tok("GOTO", "goto"), Tok("IDENTIFIER", "l")]),
+        ("return without a value (the lowering of return does not leave the routine: it would be a silent no-op)", "jump_stmt", [Tok("RETURN", "return")]),
         ("label", "labeled_stmt", [Tok("IDENTIFIER", "l"), E("s")]),
         ("case label", "labeled_stmt", [Tok("CASE", "case"), P("c"), E("s")]),
         ("default label", "labeled_stmt", [Tok("DEFAULT", "default"), E("s")]),
@@ -405,6 +406,9 @@ def r15_9(ctx):
     from .c13 import r13_5
 
     r13_5(ctx)
+    from .c06 import r06_8
+
+    r06_8(ctx)  # every call / x++ in the text is an operation of its own: none is merged with a pending one that "looks the same"
     # the arm a constant ?: condition does not select is rightly not evaluated (C11 6.5.15p4): its removal is no loss here
     r09_3(ctx, skip=("simplify_conditional_expr",))
 
